@@ -27,6 +27,7 @@ MODULES = {
     'C04': 'harness.c04',
     'C05': 'harness.c05',
     'C06': 'harness.c06',
+    'C07': 'harness.c07',
 }
 
 
